@@ -46,6 +46,21 @@ theorem tables_ok :
     isWs ' ' = true ∧ isWs '\t' = true ∧ isWs '\n' = true := by
   decide
 
+/-- **Whole nodes only.**  When `_proc_dep_pair` / `_compute_triggers` rewrite a node inside a recorded
+expression (alias → standard qualifier, plain name → `:succeeded`, `:finished` → succeeded-or-failed) the
+look-around sets of the live regexes stop the match wherever the text could continue as a longer node:
+after a qualifier no qualifier character, `:` or `[` may follow; after a name no name character, `:` or
+`[`; before a node no name character, `:`, `[` or `^`.  (So `a:submit` is not rewritten inside
+`a:submit-fail`, `a` not inside `a-x`, `x-a` or `a[-P1]`.) -/
+theorem rewrite_boundaries_ok :
+    (∀ c ∈ nodesCls.qual, qualEndBlock.contains c = true) ∧ qualEndBlock.contains ':' = true ∧
+    qualEndBlock.contains '[' = true ∧
+    (∀ c ∈ nodesCls.nameRest, nameEndBlock.contains c = true) ∧ nameEndBlock.contains ':' = true ∧
+    nameEndBlock.contains '[' = true ∧
+    (∀ c ∈ nodesCls.nameRest, nodeStartBlock.contains c = true) ∧ nodeStartBlock.contains ':' = true ∧
+    nodeStartBlock.contains '[' = true ∧ nodeStartBlock.contains '^' = true := by
+  decide
+
 /-! ### text layer -/
 
 /-- **Text layer.** Any layout of token lines — white space at token boundaries, trailing comments,
